@@ -21,7 +21,7 @@ impl TVBitVec {
     pub fn with_capacity(len: usize) -> Self {
         Self {
             data: Vec::with_capacity(len.div_ceil(Self::ELEMENTS_PER_BLOCK)),
-            len,
+            len: 0,
         }
     }
 
@@ -30,13 +30,14 @@ impl TVBitVec {
             Some(v) => 0b10 | v as u32,
             None => 0b00,
         };
-        let offset = self.data.len() % Self::ELEMENTS_PER_BLOCK;
+        let offset = self.len % Self::ELEMENTS_PER_BLOCK;
         if offset == 0 {
             self.data.push(bits);
         } else {
             let block = self.data.last_mut().unwrap();
             *block |= bits << (Self::BITS_PER_ELEMENT * offset);
         }
+        self.len += 1;
     }
 
     pub fn at(&self, index: usize) -> Option<bool> {
@@ -47,7 +48,7 @@ impl TVBitVec {
             );
         }
         let block = self.data[index / Self::ELEMENTS_PER_BLOCK];
-        let i = index % Self::ELEMENTS_PER_BLOCK;
+        let i = Self::BITS_PER_ELEMENT * (index % Self::ELEMENTS_PER_BLOCK);
         if block & (1 << (i + 1)) != 0 {
             Some(block & (1 << i) != 0)
         } else {
@@ -80,7 +81,7 @@ impl fmt::Debug for TVBitVec {
         f.debug_list()
             .entries((0..self.len).map(|i| {
                 let block = self.data[i / Self::ELEMENTS_PER_BLOCK];
-                let i = i % Self::ELEMENTS_PER_BLOCK;
+                let i = Self::BITS_PER_ELEMENT * (i % Self::ELEMENTS_PER_BLOCK);
                 if block & (1 << (i + 1)) != 0 {
                     if block & (1 << i) != 0 {
                         OptBoolDebug::True
